@@ -1,4 +1,6 @@
 import TlsProofs.ConnDecide
+import TlsProofs.ConnFrag
+import TlsModel.Gen.Conn
 /-
   C16 — post-handshake control traffic never disturbs the data stream or key sync.
 
@@ -217,5 +219,110 @@ example : (runLocal (.read none 0) ⟨exWorld.c, ⟨[⟨0, .keyUpdate 2⟩], fal
 /-- a NewSessionTicket sent by the CLIENT is fatal for a TLS 1.3 server, while a client stores it -/
 example : fatalDesc exWorld.s .newSessionTicket = some 10 ∧ fatalDesc exWorld.c .newSessionTicket = none := by decide
 example : (read none 0 ⟨exWorld.c, ⟨[⟨0, .newSessionTicket⟩], false⟩, {}⟩).2.me.tickets = 1 := by decide +kernel
+
+
+/-! ### fragment level: messages cut into several records (recordSize, record_size_limit) -/
+
+/-- Reassembly inverts fragmentation: whatever number of pieces `_sendMsg` cuts each handshake
+    message into (KeyUpdate over two records, a Certificate over many, ...), the defragmenter hands
+    the read loop exactly the messages that were sent, in order, and ends empty. -/
+theorem reassembly_inverts_fragmentation (ver13 : Bool) (nf : Msg → Nat) (recs : List Rec) :
+    reasm ver13 none (recs.flatMap (fragRec nf)) = .ok (recs, none) :=
+  reasm_fragRec ver13 nf recs
+
+/-- `keys_in_step` over fragment sequences: after every honest history and for EVERY fragmentation
+    of what is in flight, each record (fragment or whole message) carries the generation the reader
+    holds on reaching it; the reader's generation moves only when a KeyUpdate is complete. -/
+theorem keys_in_step_fragments (w0 : World) (h0 : Fresh w0) (ops : List (Side × Op))
+    (hh : ∀ o ∈ ops, o.2.Honest) (nf : Msg → Nat) :
+    let w := run w0 ops
+    (w.s.closed = false → FlightF w.s.readGen (w.c2s.recs.flatMap (fragRec nf))) ∧
+    (w.c.closed = false → FlightF w.c.readGen (w.s2c.recs.flatMap (fragRec nf))) := by
+  have h := keys_in_step w0 h0 ops hh
+  exact ⟨fun hc => flight_fragments nf _ _ (h.1 hc).1, fun hc => flight_fragments nf _ _ (h.2 hc).1⟩
+
+/-- `stream_fifo_control` over fragment sequences -/
+theorem stream_fifo_fragments (w0 : World) (h0 : Fresh w0) (ops : List (Side × Op))
+    (hh : ∀ o ∈ ops, o.2.Honest) (nf : Msg → Nat) :
+    let w := run w0 ops
+    (w.s.closed = false → w.s.closing = false →
+        w.s.got ++ w.s.readBuf ++ appBytesF (w.c2s.recs.flatMap (fragRec nf)) = w.c.wrote) ∧
+    (w.c.closed = false → w.c.closing = false →
+        w.c.got ++ w.c.readBuf ++ appBytesF (w.s2c.recs.flatMap (fragRec nf)) = w.s.wrote) := by
+  have h := stream_fifo_control w0 h0 ops hh
+  simp only [appBytes_fragments]
+  exact h
+
+/-- A record of another type in the middle of a fragmented handshake message is fatal in TLS 1.3
+    (unexpected_message), e.g. application data between the two halves of a NewSessionTicket. -/
+theorem interleaved_fragment_fatal (m x : Msg) (k g : Nat) (hx : x.ct ≠ 22) :
+    feed true (some (m, k)) ⟨g, .whole x⟩ = .error 10 := by
+  simp [feed, hx]
+
+/-- KeyUpdate split over two records, then data under the NEXT generation: in step; the same data
+    under the old generation is not -/
+example : FlightF 0 (([⟨0, .keyUpdate 0⟩, ⟨1, .appData [1]⟩] : List Rec).flatMap (fragRec fun _ => 2)) ∧
+    ¬ FlightF 0 (([⟨0, .keyUpdate 0⟩, ⟨0, .appData [1]⟩] : List Rec).flatMap (fragRec fun _ => 2)) := by
+  simp [fragRec, partsFrom, FlightF, bump, Msg.ct]
+example : reasm true none [⟨0, .part .newSessionTicket 0 2⟩, ⟨0, .whole (.appData [1])⟩, ⟨0, .part .newSessionTicket 1 2⟩]
+    = .error 10 := by rfl
+/-- a KeyUpdate that does not end its record (another handshake message follows in it) is fatal -/
+example : fatalDesc exWorld.c (.kuCoalesced 0) = some 10 := by decide
+
+/-! ### tie to the source: tables regenerated from tlslite/tlsrecordlayer.py on every run -/
+
+/-- role of an endpoint as `readAsync` distinguishes it, with the key of the generated branch -/
+def roleEnd (keypair reqs client : Bool) : End :=
+  { isClient := client, ver13 := true, hasKeypair := keypair, certReqs := if reqs then [1] else [] }
+
+def roleKey (keypair reqs client : Bool) : String :=
+  if keypair then "keypair" else if reqs then "certreq_comp" else if client then "client" else "server"
+
+/-- The handshake types the model's read loop lets through are, for every role, the tuple the source
+    assigns to `allowedHsTypes` in that branch; the content types are `allowedTypes`. -/
+theorem gen_read_allowed_matches_model :
+    (∀ k r c : Bool, some (allowedHs (roleEnd k r c)) = Gen.Conn.readAllowed.lookup (roleKey k r c)) ∧
+    Gen.Conn.readTypes13 = [23, 22] ∧ Gen.Conn.readTypesOld = [23] := by decide
+
+/-- the filter as the model applies it: for every role and every handshake type byte below 32, an
+    unparsable message of that type is answered with the generated alert of SyntaxError when the type
+    is in the generated tuple, and with unexpected_message otherwise -/
+theorem gen_read_filter_probe :
+    ∀ k r c : Bool, ∀ t ∈ List.range 32,
+      (runLocal (.read none 0) ⟨roleEnd k r c, ⟨[⟨0, .hsMalformed t⟩], false⟩, {}⟩).1 =
+        .err (.localAlert (if ((Gen.Conn.readAllowed.lookup (roleKey k r c)).getD []).contains t
+                           then (Gen.Conn.excAlert.lookup "_getMsg:SyntaxError").getD 0 else 10)) := by
+  decide +kernel
+
+/-- dispatch chain of the read loop as generated, and its behavioural meaning in the model: only a
+    KeyUpdate re-arms `try_once` (the same read goes on to the next message), a ticket does not -/
+theorem gen_read_dispatch_matches_model :
+    Gen.Conn.readDispatch = [("NewSessionTicket", "store"), ("KeyUpdate", "_handle_keyupdate_request"),
+      ("CompressedCertificate", "_handle_srv_pha"), ("Certificate", "_handle_srv_pha"),
+      ("CertificateRequest", "_handle_pha"), ("else", "readBuffer")] ∧
+    Gen.Conn.readRearm = ["KeyUpdate"] ∧
+    (runLocal (.read none 0) ⟨exWorld.c, ⟨[⟨0, .keyUpdate 0⟩, ⟨1, .appData [7]⟩], false⟩, {}⟩).1 = .bytes [7] ∧
+    (runLocal (.read none 0) ⟨exWorld.c, ⟨[⟨0, .newSessionTicket⟩, ⟨0, .appData [7]⟩], false⟩, {}⟩).1 = .bytes [] := by
+  decide +kernel
+
+/-- KeyUpdate: the source sends first and advances the write keys afterwards, advances the read keys
+    and answers a request with update_not_requested, accepts exactly the generated request bytes -/
+theorem gen_keyupdate_order_matches_model :
+    Gen.Conn.keyUpdateSend = "send_then_advance_write" ∧
+    Gen.Conn.keyUpdateHandle = "advance_read_then_if_1_reply_0_else_alert_47" ∧
+    (runLocal (.keyUpdate true) ⟨exWorld.c, {}, {}⟩).2.out.recs = [⟨0, .keyUpdate 1⟩] ∧
+    (runLocal (.keyUpdate true) ⟨exWorld.c, {}, {}⟩).2.me.writeGen = 1 ∧
+    (∀ v ∈ List.range 6,
+      ((runLocal (.read none 0) ⟨exWorld.c, ⟨[⟨0, .keyUpdate v⟩], false⟩, {}⟩).1 = .err (.localAlert 47))
+        = !(Gen.Conn.keyUpdateValidValues.contains v)) ∧
+    (runLocal (.read none 0) ⟨exWorld.c, ⟨[⟨0, .keyUpdate 1⟩], false⟩, {}⟩).2.out.recs = [⟨0, .keyUpdate 0⟩] := by
+  decide +kernel
+
+/-- the alerts the handlers of the model raise are, in order, the `_sendError` call sites of the source -/
+theorem gen_send_error_sites_match_model :
+    Gen.Conn.sendErrorSites.lookup "_handle_keyupdate_request" = some [47] ∧
+    Gen.Conn.sendErrorSites.lookup "_handle_srv_pha" = some [47, 47, 47, 47, 51, 116, 51] ∧
+    Gen.Conn.sendErrorSites.lookup "_handle_pha" = some [50, 109, 80] ∧
+    Gen.Conn.sendErrorSites.lookup "readAsync" = some [50] := by decide
 
 end Tls.Conn
